@@ -84,7 +84,7 @@ def model_check(leg, workdir):
                       extra=leg.get("extra"))
     states, gen = tlc_counts(out)
     res = {"kind": "model", "spec": leg["spec"], "cfg": leg["cfg"], "states": states, "transitions": gen, "wall_s": round(dt, 1)}
-    viol = re.search(r"Error: Invariant (\S+) is violated", out) or re.search(r"Error: Temporal properties were violated", out) \
+    viol = re.search(r"Error: Invariant (\S+) is violated", out) or re.search(r"Error: Temporal propert(y|ies) [^\n]*violated", out) \
         or re.search(r"Error: Deadlock reached", out) or re.search(r"Error: Action property (\S+)", out)
     expect = leg.get("expect_violation")
     if viol:
